@@ -82,7 +82,9 @@ pub enum Op {
     /// the logical thread's OS thread exits (a fresh one is spawned for its next operation)
     Exit,
     /// create an adapter around a scripted inner object
-    ANew { a: u32, kind: AKind, span: Option<u32>, poll_name: Option<u32> },
+    /// `owned`: spans moved into the inner object (a future holding child spans across awaits);
+    /// they are dropped with it, i.e. when the adapter is dropped, before the adapter's own span
+    ANew { a: u32, kind: AKind, span: Option<u32>, poll_name: Option<u32>, owned: Vec<u32> },
     /// one call on adapter `a`; the scripted inner object runs `steps` and returns `outcome`
     ACall { a: u32, method: AMethod, steps: Vec<Op>, outcome: AOutcome },
     ADrop { a: u32 },
